@@ -687,8 +687,16 @@ type retryableAuthMethod struct {
 }
 
 func (r *retryableAuthMethod) auth(session []byte, user string, c packetConn, rand io.Reader, extensions map[string][]byte) (ok authResult, methods []string, err error) {
+	var lastMethods []string
 	for i := 0; r.maxTries <= 0 || i < r.maxTries; i++ {
 		ok, methods, err = r.authMethod.auth(session, user, c, rand, extensions)
+		// A try that brings no method list must not hide the list an earlier
+		// try received: return the most recent one.
+		if methods != nil {
+			lastMethods = methods
+		} else {
+			methods = lastMethods
+		}
 		if ok != authFailure || err != nil { // either success, partial success or error terminate
 			return ok, methods, err
 		}
